@@ -9,11 +9,12 @@ From V Require Import Model.Build Spec.C11 Proofs.C11.Registered Proofs.C11.Inte
 Import ListNotations.
 
 (* ---- invariants over every construction sequence ------------------------------------------------------- *)
-(* the out/inout ports of primitive blocks attached to a wire are exactly its registered source: at most one *)
+(* wires are ordinary Wires or BidirWires (same _wires tables, same rename/reparent code, duplicated in the class).
+   ORDINARY wire: the out/inout ports of primitive blocks attached to it are exactly its registered source: at most one *)
 Theorem C11_single_driver : forall ops, single_driver (run ops).
 Proof. exact single_driver_run. Qed.
 Theorem C11_at_most_one_driver : forall ops w q q',
-  w < nwire (run ops) -> driver (run ops) q w -> driver (run ops) q' w -> q = q'.
+  w < nwire (run ops) -> wbidir (run ops) w = false -> driver (run ops) q w -> driver (run ops) q' w -> q = q'.
 Proof. exact one_driver_run. Qed.
 (* names in a children table are distinct; c is registered under (p, n) iff c.parent = p and c.name = n *)
 Theorem C11_unique_children : forall ops, unique_children (run ops).
@@ -28,6 +29,10 @@ Proof. exact wires_registered_run. Qed.
 (* wire.sinks is exactly the list of in / inout ports of PRIMITIVE blocks attached to the wire, in creation order *)
 Theorem C11_sinks_exact : forall ops, sinks_exact (run ops).
 Proof. exact sinks_exact_run. Qed.
+
+(* a BidirWire keeps all its drivers, in creation order, in `sources` and never has a `source`; an ordinary wire has no `sources` *)
+Theorem C11_sources_exact : forall ops, sources_exact (run ops).
+Proof. exact sources_exact_run. Qed.
 
 (* ---- the call that would create the conflict raises ------------------------------------------------------ *)
 (* only guard: the call names existing objects (the caller holds references to them) *)
@@ -72,28 +77,41 @@ Proof. exact integrity_iff. Qed.
 Theorem C11_tree_ok_constructed : forall ops, tree_ok (run ops).
 Proof. exact tree_ok_run. Qed.
 
-(* for EVERY constructed netlist (inout drivers included): the check raises iff some in- or out-port of a block of
-   the hierarchy is attached to a wire without source, and accepts iff all those port wires are driven.
-   "Visited" ports are the inPorts and outPorts of the blocks reachable through children tables; a port always has
-   an (ordinary) wire in the model. *)
+(* for EVERY constructed netlist (inout drivers included): the check raises iff for some in- or out-port of a block of the
+   hierarchy wire.getSource() yields no port (`undriven`: an ordinary wire without source -- or ANY BidirWire, whose
+   getSource reads an attribute that does not exist), and accepts otherwise.  "Visited" ports are the inPorts and outPorts
+   of the blocks reachable through children tables. *)
 Theorem C11_integrity_iff_constructed : forall ops h,
   h < nobj (run ops) ->
   (checkIntegrity (run ops) h = IRaise <-> exists q, visited (run ops) h q /\ undriven (run ops) q) /\
   (checkIntegrity (run ops) h = IOk <-> forall q, visited (run ops) h q -> ~ undriven (run ops) q).
 Proof. exact integrity_constructed. Qed.
 
+(* in the property's own terms ("a wire that no block drives" = no_driver: no source, resp. empty sources): exact as long
+   as no visited in/out port is attached to a BidirWire *)
+Theorem C11_integrity_iff_no_driver : forall ops h,
+  h < nobj (run ops) -> (forall q, visited (run ops) h q -> ~ on_bidir (run ops) q) ->
+  (checkIntegrity (run ops) h = IRaise <-> exists q, visited (run ops) h q /\ no_driver (run ops) q) /\
+  (checkIntegrity (run ops) h = IOk <-> forall q, visited (run ops) h q -> ~ no_driver (run ops) q).
+Proof. exact integrity_spec_run. Qed.
+(* without that guard the clause is FALSE (known finding F3): every port's wire has a driver, the check raises *)
+Theorem C11_integrity_bidir_refuted :
+  exists ops h, h < nobj (run ops) /\ checkIntegrity (run ops) h = IRaise /\
+                forall q, q < nport (run ops) -> ~ no_driver (run ops) q.
+Proof. exact integrity_bidir_refuted. Qed.
+
 (* ---- the executable predicates the check evaluates on REAL states are the declarative ones -------------------- *)
 Theorem C11_checked_predicates_exact : forall s,
   (single_driver_b s = true <-> single_driver s) /\ (unique_children_b s = true <-> unique_children s) /\
   (unique_wires_b s = true <-> unique_wires s) /\ (sinks_exact_b s = true <-> sinks_exact s) /\
-  (all_registered_b s = true <-> all_registered s).
+  (all_registered_b s = true <-> all_registered s) /\ (sources_exact_b s = true <-> sources_exact s).
 Proof. exact checked_predicates_exact. Qed.
 Theorem C11_checked_frames_exact : forall s o s', unique_children s -> unique_wires s ->
   (children_stay_b s s' = true <-> children_stay s s') /\ (drivers_stay_b s s' = true <-> drivers_stay s s') /\
   (wires_stay_b s o s' = true <-> wires_stay s o s').
 Proof. exact checked_frames_exact. Qed.
 Theorem C11_checked_integrity_exact : forall s h, unique_children s -> h < nobj s ->
-  (undriven_port_b s h = true <-> exists q, visited s h q /\ undriven s q).
+  (undriven_port_b s h = true <-> exists q, visited s h q /\ no_driver s q).
 Proof. exact checked_integrity_exact. Qed.
 
 (* ---- the witnesses of the two repaired defects, on the repaired model (they were `_refuted` theorems) -------- *)
@@ -128,7 +146,8 @@ Definition ex_ops : list op :=
 Example C11_conflicts_nonvacuous :
   Forall (fun '(o, c) => valid_op (run ex_ops) o /\ conflict_of (run ex_ops) o = Some c /\ snd (step (run ex_ops) o) = Raise c)
          [(AddOut 2 5%Z 0, CDriver 0); (NewLogic (Some 0) 2%Z false, CChild 0 2%Z); (NewWire 0 1%Z 1%Z, CWire 0 1%Z);
-          (Rename 0 1%Z, CWire 0 1%Z); (AddInOut 1 0%Z 1, CDriver 1); (ReparentAndRename 1 0 0%Z, CWire 0 0%Z)].
+          (Rename 0 1%Z, CWire 0 1%Z); (AddInOut 1 0%Z 1, CDriver 1); (ReparentAndRename 1 0 0%Z, CWire 0 0%Z);
+          (NewBidir 0 1%Z 1%Z, CWire 0 1%Z)].
 Proof. vm_compute. repeat constructor; lia. Qed.
 Example C11_integrity_nonvacuous :
   checkIntegrity (run ex_ops) 0 = IOk /\
@@ -141,6 +160,7 @@ Print Assumptions C11_unique_children.
 Print Assumptions C11_unique_wires.
 Print Assumptions C11_wires_registered.
 Print Assumptions C11_sinks_exact.
+Print Assumptions C11_sources_exact.
 Print Assumptions C11_conflict_raises.
 Print Assumptions C11_raise_unchanged.
 Print Assumptions C11_earlier_stays.
@@ -149,6 +169,8 @@ Print Assumptions C11_child_permanent.
 Print Assumptions C11_integrity_iff.
 Print Assumptions C11_tree_ok_constructed.
 Print Assumptions C11_integrity_iff_constructed.
+Print Assumptions C11_integrity_iff_no_driver.
+Print Assumptions C11_integrity_bidir_refuted.
 Print Assumptions C11_checked_predicates_exact.
 Print Assumptions C11_checked_frames_exact.
 Print Assumptions C11_checked_integrity_exact.
